@@ -96,15 +96,12 @@ type progOpts struct {
 	jsSafe     bool // stay inside the subset both backends define (C04)
 	taint      bool
 	directives bool
-<<<<<<< HEAD
 	// hooks of the ill-typed/erroring stream (C06); nil = the valid stream, and
 	// no PRNG draw is added, so the other properties' streams are unchanged
 	exprHook func(g *progGen, env genv, k kind, d int) (string, bool) // may replace any expression
 	dirHook  func(g *progGen) (string, bool)                          // may replace a print's directive suffix
-=======
 	spread     bool // C19: put (most) commands on lines of their own, so that line numbers discriminate
 	allHeader  bool // C19: every template declares its params in the header (no soydoc comment in the file)
->>>>>>> main
 	scope      bool // C02: small name pool (shadowing), scope probes, aliases, attribute-style params, more data="all"/data="$e"
 	// options added for C09 (all off by default; none consumes randomness when off)
 	ij          bool                  // some prints read the injected data: {$ij.s}, {$ij.n}
